@@ -322,6 +322,9 @@ def gate_accepts_events(r, upto_index):
     out = []
     for ev in r.events[:upto_index]:
         if ev[0] == "call" and ev[1] == GATE_FQ:
+            sw = [x for lvl in (ev[7] if len(ev) > 7 else ()) for x in lvl]
+            if any(x.split(".")[-1] in ("AssertionError", "Exception", "BaseException") for x in sw):
+                continue   # the gate's exception is caught and dropped by an enclosing try: it protects nothing
             args = ev[2]
             kw = ev[3]
             n = args[0] if len(args) > 0 else kw.get("num_qubits")
